@@ -38,6 +38,7 @@ type Program struct {
 	pureFuncs  map[string]bool
 	noNilCheckPkgs map[string]bool // packages whose functions are verified under "pointers that are dereferenced are non-nil"
 	smallInlinePkgs map[string]int  // package path -> max blocks for inlining (overrides inlineLimit)
+	checkSharedWrites bool // C06: stores into shared input structures must target objects allocated by the activation
 	checkQuotes bool // C05: emit quote-free obligations where program text is put between Coq quotes
 	checkMentions bool // C04: emit dep-recorded obligations at constructions of coq name types
 }
